@@ -52,6 +52,16 @@ CHECKS["C18"] = dict(
         "Coefficients are read by the recorder from the YAML files directly, not through MaterialFile. Calibration with corrupted records every run.",
    technique="TLA+ law module + TLC MC of the lookup post-condition; exhaustive code->spec trace validation over the catalogue (dyadic arithmetic)",
    ref="6 (C18)")
+CHECKS["C10"] = dict(
+   text="spec/Zernike.tla states the published index rules (OSA/ANSI, Noll as closed formula and as ordering rule, Fringe), the radial polynomials "
+        "as exact integer coefficient vectors and the normalisation; MC_Zernike checks exhaustively (21 783 states: 3 families x 7 260 index pairs up to "
+        "120 terms) bijection and order, agreement of the two Noll definitions, R(1)=1 and orthonormality by exact rational integration, with published "
+        "table prefixes as witnesses. TLC's tables are compared verbatim with the code's index lists, radial terms at dyadic radii and normalisation "
+        "constants (spec->code). Trace_Zernike validates recorded executions in dyadic arithmetic: term values for every index, linearity of poly(), fit "
+        "recovery for N in 1..37 on well-conditioned point sets, linearity of fitting, ZernikeOPD against its reported residual (normal equations). "
+        "Calibration with corrupted records in every run.",
+   technique="TLA+ exact integer/rational model + TLC exhaustive MC; spec->code table replay; code->spec trace validation (dyadic arithmetic)",
+   ref="6 (C10)")
 NOT_YET = "check not built yet in this session (see DESIGN.md section 6 for the plan)"
 def main():
     props = [json.loads(l)["id"] for l in open(os.path.join(HERE, "properties.jsonl"))]
